@@ -12,23 +12,21 @@ entirely present or entirely absent and nothing that was never written appears. 
 usable and again satisfies all other properties."
 
 Model: `Model/Disk.lean` (the storage contract at record granularity) and `Model/Durable.lean`
-(`Dur.step`: the storage actions of the write path, `newMem`, memdb flush, `session.commit` with manifest
-rotation, crash, process exit and recovery itself, in the code's order; `Dur.recoverR` = `Open`).
+(`Dur.step`: the storage actions of the write path, `newMem`, memdb flush, table compaction, transactions,
+`session.commit` with manifest rotation, crash, process exit and recovery itself, in the code's order;
+`Dur.recoverR` = `Open`).
 
-What is proved (`crash_consistent_core`): for the sub-protocol {write groups, buffer rotation, memdb flush,
-manifest rotation at any commit, crash / exit at any point, recovery with its own flushes and commits —
-hence nested crashes}, with no injected storage fault, for a configuration `cfg.Good` (the repaired code):
-every crash image of every reachable state opens, contains every group acknowledged with `Sync` (and every
-synced group that was about to be acknowledged), consists of whole issued groups only, all of them visible at
-the recovered sequence number, and the state after the crash is again a reachable state of the machine (so
-the statement applies to the reopened DB and to crashes during recovery).
-
-The statement for the whole machine including table compaction (`Act.compactStart`) and transactions
-(`Act.trBegin/trPut/trCommit/trDiscard`) is `crash_consistent_full`; they are instances of the same `Job`
-(outputs synced, one edit, deferred removals) and part of `Dur.step`, but `Act.faultFree` excludes them and the
-invariant (`JobKindOK`) does not cover them: not proved.  Evidence: a random explorer (4000 runs x 200 steps,
-with and without injected faults, crash images checked after every step) finds no violation for the default
-configuration and finds D22 at once.
+What is proved (`crash_consistent_core`, and `crash_consistent` = `crash_consistent_full`): for the whole
+machine {write groups, buffer rotation, memdb flush, table compaction (concurrent with the writer and with
+`newMem`), transactions (`OpenTransaction` … `Commit`/`Discard`, a committed transaction being a group
+acknowledged with `Sync`), manifest rotation at any commit, crash / exit at any point, recovery with its own
+flushes and commits — hence nested crashes}, with no injected storage fault, for a configuration `cfg.Good`
+(the repaired code): every crash image of every reachable state opens, contains every group acknowledged with
+`Sync` (and every synced group that was about to be acknowledged), consists of whole issued groups only, all of
+them visible at the recovered sequence number, and the state after the crash is again a reachable state of the
+machine (so the statement applies to the reopened DB and to crashes during recovery).  The invariant
+(`Proofs/DurableInv.lean`) is decidable and is also run on random walks of the machine
+(`Scratch/Explore.lean` in the work area: 4000 runs x 200 steps per configuration).
 
 Negative results (explicit traces, `by decide`): removing the flushed journal before the edit is synced
 loses an acknowledged write; a rotation that drops the journal/sequence numbers (D2 before its repair)
@@ -174,13 +172,18 @@ theorem reopen_after_exit {cfg : Cfg} (hg : cfg.Good) {s : St} {d : Disk} (hr : 
     without an injected storage fault (`Act.noFault`), i.e. including table compactions (outputs synced; one
     edit that deletes the inputs and adds the output; deferred removal of the inputs) and transactions (table
     synced, one edit with `seqNum := tr.seq`, then publication and acknowledgement), a committed transaction
-    being a group acknowledged with `Sync`.  Not proved: the invariant does not cover these two job kinds yet
-    (the job machinery `stepJob` is the generic one). -/
+    being a group acknowledged with `Sync`. -/
 def crash_consistent_full : Prop :=
   ∀ (cfg : Cfg), cfg.Good → ∀ (s : St) (d : Disk),
     (∃ as, (∀ a ∈ as, a.noFault = true) ∧ run cfg init as = some (s, d)) →
     ∀ d', IsCrashImage d d' → ∀ (c : UCmp), LawfulUCmp c → (∀ g ∈ issuedGrps s, g.wf) →
       ∃ r, recoverR cfg d' = .ok r ∧ ∃ sel, Consistent c s r sel
+
+/-- … and it holds: the invariant covers every action of the machine. -/
+theorem crash_consistent : crash_consistent_full := by
+  intro cfg hg s d hr d' hi c hl hw
+  obtain ⟨r, h1, h2, _⟩ := crash_consistent_core hg hr hi hl hw
+  exact ⟨r, h1, h2⟩
 
 /-! ## explicit runs: the theorem is not vacuous, and the ordering obligations are needed -/
 
@@ -233,8 +236,7 @@ example : losesAcked {} { tornM := fun _ => true } flushUpToAppend = some false 
 /-- … and a reader of the reopened DB finds the value, also after a manifest rotation -/
 example : readsK {} flushWithRotation = some (some [118]) := by decide
 
-/-- a committed transaction followed by a flush and a compaction of the two tables (the extended machine of
-    `crash_consistent_full`) -/
+/-- a committed transaction followed by a flush and a compaction of the two tables -/
 def trThenCompact : List Act :=
   [.trBegin, .trPut putKV, .trCommit,
    .job false .ok, .job false .ok, .job false .ok,                   -- the transaction's table
@@ -294,7 +296,7 @@ theorem d12_creation_window :
 def theorems : List String :=
   ["GoLevel.C04.image_reads_prefix", "GoLevel.C04.manifest_image_reads_prefix",
    "GoLevel.C04.torn_manifest_record_no_trace", "GoLevel.C04.group_all_or_nothing",
-   "GoLevel.C04.crash_consistent_core", "GoLevel.C04.reopen_after_exit",
+   "GoLevel.C04.crash_consistent_core", "GoLevel.C04.crash_consistent", "GoLevel.C04.reopen_after_exit",
    "GoLevel.C04.early_journal_removal_loses_write", "GoLevel.C04.rotation_without_nums_hides_data",
    "GoLevel.C04.setmeta_before_sync_fails_to_reopen", "GoLevel.C04.d22_torn_manifest_record_loses_write",
    "GoLevel.C04.d12_creation_window"]
